@@ -110,9 +110,17 @@ type pendingLoc struct {
 
 
 func (ex *Exec) execRangeSym(s *ast.RangeStmt, st *State, label string, sv *SymSliceV) *Flow {
-	_, invs, havoc, _ := ex.loopClauses(s)
+	_, invs, havoc, blk, rangevar := ex.loopClauses2(s)
 	if len(invs) == 0 {
 		unsupported("range over a slice of unknown length at %s needs a loop invariant", ex.pos(s.Pos()))
+	}
+	if rangevar != "" {
+		// a ghost names the slice being ranged over (the range expression is evaluated once)
+		gl := ex.ghostLoc(blk.Pkg, rangevar)
+		if gl == nil {
+			unsupported("rangevar %s: no such ghost (declare it with 'forall %s []T')", rangevar, rangevar)
+		}
+		st.store[gl] = sv
 	}
 	if s.Tok != token.DEFINE {
 		unsupported("range with assignment over symbolic slice at %s", ex.pos(s.Pos()))
